@@ -211,11 +211,12 @@ def gen_cue_text(rng, begin_ms, end_ms, crossing=0.08, unclosed=0.1, maxdepth=3)
           rng.shuffle(cls)
           parts.append("<c" + "".join("." + c for c in cls) + ">")
         elif k == "lang":
-          parts.append("<lang " + rng.choice(LANGS) + ">")
+          # (any start tag may carry classes; the annotation of <lang> follows them; tab as the separator is allowed too)
+          parts.append("<lang" + rng.choice(["", "", ".formal", ".a.b"]) + rng.choice([" ", " ", "\t"]) + rng.choice(LANGS) + ">")
         elif k == "v":
           parts.append("<v" + rng.choice(["", ".loud"]) + " " + rng.choice(VOICES) + ">")
         else:
-          parts.append("<%s>" % k)
+          parts.append("<%s%s>" % (k, rng.choice(["", "", "", ".cls", ".x.y"])))
         stack.append(k)
         body(depth + 1, in_ruby)
         if rng.random() < crossing and len(stack) >= 2:
